@@ -29,7 +29,7 @@ func init() {
 		Rules: []core.Rule{
 			{ID: "C18-R1", Title: "overwrite replaces: truncating open, then rename", Decides: "get returns exactly the last value set (also after a shorter overwrite)", Floor: 2, Run: c18r1},
 			{ID: "C18-R2", Title: "one path function for all operations", Decides: "set/get/delete/list address the same file", Floor: 4, Run: c18r2},
-			{ID: "C18-R3", Title: "entity keys: full hex of the name + the listed suffix, used by all operations", Decides: "holds for every entity name; listing returns exactly the live entries", Floor: 6, Run: c18r3},
+			{ID: "C18-R3", Title: "entity keys: full hex of the name + the listed suffix, used by all operations", Decides: "holds for every entity name; listing returns exactly the live entries", Floor: 6, Run: func(c *core.Ctx) { c18r3(c); entityCtorPasses(c) }},
 			{ID: "C18-R4", Title: "errors surface; successful lookups read the storage", Decides: "not-found after delete; no stale entries", Floor: 4, Run: c18r4},
 			{ID: "C18-R5", Title: "exact listing filter; only Set/Delete change files; writes and deletes are unconditional; opening is read-only", Decides: "listing returns exactly the live entries; values survive re-opening; the last value set is what is read", Floor: 6, Run: c18r5},
 		},
@@ -48,7 +48,7 @@ func init() {
 			{ID: "C19-R1", Title: "the destination is never written in place and never removed", Decides: "never a mixture, an empty or a truncated value; never absent after it held a value", Floor: 2, Run: c19r1},
 			{ID: "C19-R2", Title: "write, close, then rename; rename only after success", Decides: "either the previous or the new value in full", Floor: 3, Run: c19r2},
 			{ID: "C19-R3", Title: "temp files are invisible to listings", Decides: "other keys / listings are untouched by an interrupted write", Floor: 1, Run: c19r3},
-			{ID: "C19-R4", Title: "one Set per entity / per config key", Decides: "database operations built on Set are atomic per key", Floor: 2, Run: c19r4},
+			{ID: "C19-R4", Title: "one Set per entity / per config key", Decides: "database operations built on Set are atomic per key", Floor: 2, Run: func(c *core.Ctx) { c19r4(c); noDeleteBeforeSave(c) }},
 			{ID: "C19-R5", Title: "only Set renames, only Set/Delete remove; opening and reading change no file (shared with C18-R5)", Decides: "a left-over temporary file is never promoted to a value", Floor: 6, Run: c18r5},
 		},
 	})
@@ -760,6 +760,28 @@ func c18r3Rest(c *core.Ctx, suffix string) {
 			})
 		}
 		if fromKey {
+			// ... and it is the last word on the name: a decode of the stored JSON *after* the assignment puts the lossy name back
+			var later ssa.Instruction
+			for _, b := range bodies(ld) {
+				core.Instrs(b.fn, func(i ssa.Instruction) {
+					st, ok := i.(*ssa.Store)
+					if !ok {
+						return
+					}
+					if _, isName := core.FieldAddrOf(st.Addr, mod+"/db.Entity", "Name"); !isName {
+						return
+					}
+					if d := decodeAfter(st); d != nil {
+						later = d
+					}
+				})
+			}
+			lp := ld.Pos()
+			if later != nil {
+				lp = later.Pos()
+			}
+			c.Check(later == nil, "loaded-name-set-last@"+fname(ld), lp, "nothing decodes into the entity after its name was taken from the key",
+				"the stored JSON is decoded into the entity after the name was taken from the key: the decode overwrites the exact name with the one JSON kept (invalid bytes replaced by U+FFFD) — the entity comes back under a name it cannot be found or deleted under")
 			pos := ld.Pos()
 			if cutset != nil {
 				pos = cutset.Pos()
@@ -1023,6 +1045,39 @@ func inlineLoaderNamesFromKey(f *ssa.Function) bool {
 		})
 	})
 	return fromKey
+}
+
+// decodeAfter: a JSON decode (Unmarshal / Decoder.Decode) that can run after st.
+func decodeAfter(st *ssa.Store) ssa.Instruction {
+	isDecode := func(i ssa.Instruction) bool {
+		return core.IsCall(i, "encoding/json.Unmarshal") || core.IsCall(i, "(*encoding/json.Decoder).Decode")
+	}
+	blk := st.Block()
+	after := false
+	for _, i := range blk.Instrs {
+		if i == ssa.Instruction(st) {
+			after = true
+			continue
+		}
+		if after && isDecode(i) {
+			return i
+		}
+	}
+	var hit ssa.Instruction
+	for _, s := range blk.Succs {
+		for b := range core.Reach(s, nil, nil) {
+			// a decode that is passed on the way to the store is reached again only around a loop: the next entity's decode
+			if b == blk || b.Dominates(blk) {
+				continue
+			}
+			for _, i := range b.Instrs {
+				if isDecode(i) {
+					hit = i
+				}
+			}
+		}
+	}
+	return hit
 }
 
 func isString(t types.Type) bool {
